@@ -180,6 +180,7 @@ open OpmVerif.Peaceman
               <nops> { C iRaw jRaw k1 k2 state <7 input tokens>
                      | W factor i j k c1 c2          (items: integer or *)
                      | O state i j k c1 c2
+                     | L n i j k1 k2
                      | E }
               <nconn> { i j k complnum state dir fromDeck CF Kh r0 rw skin wpimult sortValue }
          -> ok | differs <index> <field> | differs length
@@ -234,6 +235,11 @@ def parseOps : Nat → List String → Option (List (Op Float) × List String)
     | "W" :: f :: rest =>
       match Peaceman.parseF f, parseSel (rest.take 5) with
       | some f, some s => (parseOps n (rest.drop 5)).map fun (ops, ts') => (Op.wpimult f s :: ops, ts')
+      | _, _ => none
+    | "L" :: nn :: rest =>
+      match nn.toInt?, (rest.take 4).map parseItem with
+      | some nn, [some i, some j, some k1, some k2] =>
+        (parseOps n (rest.drop 4)).map fun (ops, ts') => (Op.complump nn ⟨i, j, k1, k2⟩ :: ops, ts')
       | _, _ => none
     | "O" :: st :: rest =>
       match parseState st, parseSel (rest.take 5) with
